@@ -1,5 +1,6 @@
 //@ property: C18
 //@ unit: c18_fast_merkle_root tier=quick
+//@ paired: verif_c18_paired::fmr_n
 //@ clause: for every leaf count 0..=2^31: fast_merkle_root(leaves) == mroot(leaves) where mroot is the definitional tree (pair adjacent nodes left to right with the SHA-256 compression function, promote an unpaired last node, repeat; [] -> 0^32; [x] -> x); all loops terminate; no overflow, shift or index error
 use vstd::prelude::*;
 verus! {
@@ -332,7 +333,7 @@ pub proof fn lemma_tr_promote(s: Seq<Seq<u8>>, lo: int, h: nat)
 //@|         r@ == mroot(leaf_seq(leaves@)),
 //@at "let mut result_hash" before
 //@|     let ghost s = leaf_seq(leaves@);
-//@at "let mut count : u32 = 0 ;" after
+//@loop-pos 1 before
 //@|     proof {
 //@|         assert forall|b: u32| b < 32 implies !bit(0u32, b) by {
 //@|             assert(!((0u32 >> b) & 1 == 1)) by(bit_vector);
@@ -345,9 +346,9 @@ pub proof fn lemma_tr_promote(s: Seq<Seq<u8>>, lo: int, h: nat)
 //@|             count <= leaves@.len(),
 //@|             inner_ok(s, inner, count),
 //@|         decreases leaves@.len() - count
-//@at "let mut temp_hash" before
+//@loop-pos 1 body-start
 //@|         let ghost count0 = count;
-//@at "let mut level = 0 ;" after nth=1
+//@loop-pos 2 before
 //@|         proof {
 //@|             lemma_lowz0(count);
 //@|             assert(p2(0) == 1);
@@ -364,7 +365,7 @@ pub proof fn lemma_tr_promote(s: Seq<Seq<u8>>, lo: int, h: nat)
 //@|                 temp_hash@ == tr(s, count - p2(level as nat), level as nat),
 //@|                 inner_ok(s, inner, count0),
 //@|             decreases 32 - level
-//@at "temp_hash = sha256midstate" before
+//@loop-pos 2 body-start
 //@|             proof {
 //@|                 let l = level as u32;
 //@|                 lemma_cond(count, l);
@@ -378,12 +379,12 @@ pub proof fn lemma_tr_promote(s: Seq<Seq<u8>>, lo: int, h: nat)
 //@|                 assert(lo_of(count0, l) as int == count - 2 * p2(l as nat));
 //@|                 lemma_tr_combine(s, count - 2 * p2(l as nat), l as nat);
 //@|             }
-//@at "inner [ level ] = temp_hash ;" before
+//@loop-pos 2 after
 //@|         proof {
 //@|             lemma_cond(count, level as u32);
 //@|         }
 //@|         let ghost inner0 = inner;
-//@at "inner [ level ] = temp_hash ;" after
+//@loop-pos 1 body-end
 //@|         proof {
 //@|             let l = level as u32;
 //@|             lemma_shl_p2(l);
@@ -396,7 +397,7 @@ pub proof fn lemma_tr_promote(s: Seq<Seq<u8>>, lo: int, h: nat)
 //@|                 }
 //@|             }
 //@|         }
-//@at "let mut level = 0 ;" after nth=2
+//@loop-pos 3 before
 //@|     proof {
 //@|         lemma_lowz0(count);
 //@|     }
@@ -406,12 +407,12 @@ pub proof fn lemma_tr_promote(s: Seq<Seq<u8>>, lo: int, h: nat)
 //@|             count != 0,
 //@|             lowz(count, level as u32),
 //@|         decreases 32 - level
-//@at "level += 1 ;" before nth=2
+//@loop-pos 3 body-start
 //@|         proof {
 //@|             lemma_cond(count, level as u32);
 //@|             lemma_skip(count, level as u32);
 //@|         }
-//@at "result_hash = inner [ level ] ;" after
+//@loop-pos 4 before
 //@|     let ghost n = count;
 //@|     proof {
 //@|         let l = level as u32;
@@ -434,7 +435,7 @@ pub proof fn lemma_tr_promote(s: Seq<Seq<u8>>, lo: int, h: nat)
 //@|             result_hash@ == tr(s, count - p2(level as nat), level as nat),
 //@|             inner_ok(s, inner, n),
 //@|         decreases 32 - level
-//@at "count += 1 << level ;" before
+//@loop-pos 4 body-start
 //@|         let ghost level0 = level;
 //@|         proof {
 //@|             let l = level as u32;
@@ -455,7 +456,7 @@ pub proof fn lemma_tr_promote(s: Seq<Seq<u8>>, lo: int, h: nat)
 //@|                 result_hash@ == tr(s, count - p2(level as nat), level as nat),
 //@|                 inner_ok(s, inner, n),
 //@|             decreases 32 - level
-//@at "result_hash = sha256midstate" before
+//@loop-pos 5 body-start
 //@|             proof {
 //@|                 let l = level as u32;
 //@|                 lemma_cond(count, l);
@@ -468,11 +469,11 @@ pub proof fn lemma_tr_promote(s: Seq<Seq<u8>>, lo: int, h: nat)
 //@|                 assert(lo_of(n, l) as int == count - 2 * p2(l as nat));
 //@|                 lemma_tr_combine(s, count - 2 * p2(l as nat), l as nat);
 //@|             }
-//@at "level += 1 ; }" after nth=3
+//@loop-pos 5 after
 //@|         proof {
 //@|             lemma_cond(count, level as u32);
 //@|         }
-//@at "result_hash }" before
+//@loop-pos 4 after
 //@|     proof {
 //@|         lemma_shl_p2(level as u32);
 //@|         lemma_mroot_tr(s, level as nat);
